@@ -22,7 +22,7 @@ CMP = ('lt', 'le', 'gt', 'ge', 'eq', 'ne')
 MOVE = {
     'slice': None, 'squeeze': None, 'broadcast_in_dim': None, 'concatenate': None, 'reshape': None,
     'transpose': None, 'rev': None, 'expand_dims': None, 'pad': None, 'copy': None, 'copy_p': None,
-    'split': None, 'unstack': None, 'stack': None,
+    'split': None, 'unstack': None, 'stack': None, 'tile': None,
     'gather': ([0], [1]), 'scatter': ([0, 2], [1]), 'dynamic_slice': ([0], 'rest'),
     'dynamic_update_slice': ([0, 1], 'rest'),
 }
@@ -398,8 +398,9 @@ class Interp:
     operand, upd = self.lift(operand), self.lift(upd)
     # target position of every update element: scatter (overwrite) ids one update element at a time
     # is quadratic; instead scatter-add powers is unsafe; use the linear structure via jacobian.
-    f = lambda u: eqn.primitive.bind(jnp.zeros(operand.shape), jnp.asarray(idx), u, **eqn.params)
-    J = np.asarray(jax.jacfwd(f)(jnp.zeros(upd.shape)))
+    dt = eqn.invars[0].aval.dtype
+    f = lambda u: eqn.primitive.bind(jnp.zeros(operand.shape, dt), jnp.asarray(idx), u, **eqn.params)
+    J = np.asarray(jax.jacfwd(f)(jnp.zeros(upd.shape, dt)))
     J = J.reshape(operand.size, upd.size)
     if not np.all((J == 0) | (J == 1)):
       raise Unsupported('scatter-add with non 0/1 structure')
